@@ -46,6 +46,33 @@ def coqchk(prop_files):
     return dict(ok=r.returncode == 0, axioms=[a.strip() for a in ax], wall_s=round(time.time() - t0, 1), log=out[-1500:])
 
 
+def pure_crosscheck(ctx):
+    """Thorough tier: the fast model binary (nat as OCaml int) against the binary extracted with ExtrOcamlBasic only, on the
+    curated grammars (tables from the text), on lexer/parser inputs and on the resolution grid: outputs must be identical."""
+    import front
+    rnd = random.Random(ctx.seed + 99)
+    text = ['Q\n']
+    for k, g in gram.curated().items():
+        t = gram.render_plain(g)
+        text.append('E %s %s\n' % (k, t.encode().hex()))
+        text.append('L l%s %s\n' % (k, t.encode().hex()))
+        text.append('Y y%s %s\n' % (k, t.encode().hex()))
+    for i in range(40):
+        sp = front.decorate(gram.random_usable(rnd, p_prec=0.4, p_lit=0.4), rnd)
+        t = front.render(sp, rnd, 'random')
+        text.append('E r%d %s\n' % (i, t.encode().hex()))
+    inp = ''.join(text)
+    fast = vlib.sh([os.path.join(vlib.COQ, 'extract', 'model_eval')], input=inp, timeout=3600, preexec_fn=vlib._big_stack)
+    pure = vlib.sh([os.path.join(vlib.COQ, 'extract', 'model_eval_pure')], input=inp, timeout=3600, preexec_fn=vlib._big_stack)
+    same = fast.stdout == pure.stdout and fast.returncode == 0 and pure.returncode == 0
+    if not same:
+        fl, pl = fast.stdout.splitlines(), pure.stdout.splitlines()
+        k = next((i for i in range(min(len(fl), len(pl))) if fl[i] != pl[i]), min(len(fl), len(pl)))
+        ctx.violation('no-failing-input-found', 'the fast model binary (ExtrOcamlNatInt) and the pure one (ExtrOcamlBasic) differ at output line %d: %r vs %r %s'
+                      % (k, fl[k][:120] if k < len(fl) else None, pl[k][:120] if k < len(pl) else None, (fast.stderr + pure.stderr)[-200:]), {}, interface='extraction')
+    return dict(commands=len(text), output_lines=len(fast.stdout.splitlines()), identical=same)
+
+
 def tools_hash():
     h = hashlib.sha256()
     d = os.path.dirname(os.path.abspath(__file__))
